@@ -5,8 +5,8 @@ CONSTANTS
   MaxLinesB = 1
   KF_FindUnitRelock = FALSE
   MaxOps = 4
-  ExportOps = 2
-  KeyFamily = "all"
+  ExportOps = 3
+  KeyFamily = "cover"
   DumpFile = "c19.ndjson"
 INVARIANTS
   NoSecretInReplies
